@@ -12,6 +12,7 @@ from mirsym import (NONE, Closure, Enum, Err, Num, Ok, Opaque, PanicPath, Ref, R
                     b_and, b_not, b_or, clone_val, ite, num_fn)
 
 MODELS = []
+CURRENT_ENGINE = {}
 USED = set()
 
 
@@ -19,6 +20,7 @@ def model(pat, doc=""):
     def deco(fn):
         def wrapped(eng, callee, args, _fn=fn, _pat=pat, _doc=doc):
             USED.add(_doc or _pat)
+            CURRENT_ENGINE["eng"] = eng
             return _fn(eng, callee, args)
         MODELS.append((pat, wrapped))
         return fn
@@ -78,7 +80,7 @@ def as_iter(v):
     if isinstance(v, Struct) and v.name == "Range":
         s, e = v.fields
         if not (isinstance(s, int) and isinstance(e, int)):
-            raise Unmodelled("symbolic range bounds")
+            return PyIter(symbolic_range(s, e))
         return PyIter(range(s, e))
     if isinstance(v, RVec):
         return PyIter(list(v.items))
@@ -87,13 +89,35 @@ def as_iter(v):
     raise Unmodelled("as_iter(%r)" % (type(v0).__name__,))
 
 
+def symbolic_range(s, e):
+    """items of start..end with symbolic integer bounds: empty if the path decides start >= end, otherwise the length must be
+    forced by the path condition (e.g. `first..first + n` with concrete n)"""
+    eng = CURRENT_ENGINE.get("eng")
+    if eng is None or eng.ctx is None:
+        raise Unmodelled("symbolic range bounds")
+    zs = s if not isinstance(s, int) else z3.IntVal(s)
+    ze = e if not isinstance(e, int) else z3.IntVal(e)
+    if not eng.ctx.branch(zs < ze, "range non-empty"):
+        return []
+    n = eng.concretize_int(ze - zs)
+    if n is None:
+        raise Unmodelled("range of symbolic length")
+    return [z3.simplify(zs + j) for j in range(n)]
+
+
 def range_next(eng, callee, args):
     r = deref(args[0])
     if isinstance(r, PyIter):
         return r.next()
     s, e = r.fields
     if not (isinstance(s, int) and isinstance(e, int)):
-        raise Unmodelled("symbolic range bounds")
+        CURRENT_ENGINE["eng"] = eng
+        it = PyIter(symbolic_range(s, e))
+        # turn the Range into the iterator in place so that later next() calls continue it
+        cont = args[0]
+        if isinstance(cont, Ref):
+            cont.set(it)
+        return it.next()
     if s < e:
         r.fields[0] = s + 1
         return Some(s)
@@ -294,6 +318,25 @@ def m_vec_new(eng, callee, args):
     return RVec([])
 
 
+@model(r"^(core|std)::slice::<impl \[.*\]>::(chunks|chunks_exact)$", "slice::chunks(n): consecutive sub-slices of n items (last one shorter for chunks); panics for n = 0")
+def m_slice_chunks(eng, callee, args):
+    v = deref(args[0])
+    items = list(v.items if isinstance(v, RVec) else v)
+    n = args[1]
+    if not isinstance(n, int):
+        raise Unmodelled("symbolic chunk size")
+    if n == 0:
+        raise PanicPath("chunk size must be non-zero")
+    out = []
+    for lo in range(0, len(items), n):
+        part = items[lo:lo + n]
+        if callee.endswith("chunks_exact") and len(part) < n:
+            break
+        cell = [RVec(part)]
+        out.append(Ref(cell, 0))
+    return PyIter(out, len(out))
+
+
 @model(r"^Vec::<.*>::extend_from_slice$", "Vec::extend_from_slice appends clones of the slice's items")
 def m_vec_extend_from_slice(eng, callee, args):
     src = deref(args[1])
@@ -326,7 +369,7 @@ def m_vec_deref(eng, callee, args):
     return args[0]
 
 
-@model(r"^<Vec<.*> as Clone>::clone$|^core::slice::<impl \[.*\]>::to_vec$|^<\[.*\] as ToOwned>::to_owned$", "Vec::clone / to_vec copies the items")
+@model(r"^<Vec<.*> as Clone>::clone$|^(core|std|alloc)::slice::<impl \[.*\]>::to_vec$|^<\[.*\] as ToOwned>::to_owned$", "Vec::clone / to_vec copies the items")
 def m_vec_clone(eng, callee, args):
     v = deref(args[0])
     items = v.items if isinstance(v, RVec) else v
@@ -432,14 +475,14 @@ def m_add_assign(eng, callee, args):
     return Tuple([])
 
 
-@model(r"^<(T|F|f32|f64) as PartialOrd>::(lt|le|gt|ge)$", "float comparison (R-mode: total order on reals, no NaN)")
+@model(r"^<(T|F|S|f32|f64) as PartialOrd>::(lt|le|gt|ge)$", "float comparison (R-mode: total order on reals, no NaN)")
 def m_cmp(eng, callee, args):
     a, b = Num.of(deref(args[0])), Num.of(deref(args[1]))
     op = callee.rsplit("::", 1)[1]
     return {"lt": a.lt, "le": a.le, "gt": a.gt, "ge": a.ge}[op](b)
 
 
-@model(r"^<(T|F|f32|f64) as PartialEq>::(eq|ne)$", "float equality")
+@model(r"^<(T|F|S|f32|f64) as PartialEq>::(eq|ne)$", "scalar equality")
 def m_eq(eng, callee, args):
     a, b = Num.of(deref(args[0])), Num.of(deref(args[1]))
     return a.eq(b) if callee.endswith("eq") else a.ne(b)
